@@ -86,20 +86,63 @@ theorem mod_11_10_validate_spec (number : Str) :
     ⦃post⟨fun r => ⌜r = number⌝, fun e => ⌜e.isValidation = true⌝⟩⦄ := by
   mvcgen [Gen.iso7064_mod_11_10.validate, mod_11_10_checksum_any, Py.stateT_pure_apply]
 
+private theorem mod_37_2_checksum_alpha (n a : Str) :
+    ⦃⌜True⌝⦄ Gen.iso7064_mod_37_2.checksum n a ⦃post⟨fun _ => ⌜∀ c ∈ n, a.contains c = true⌝, fun _ => ⌜True⌝⟩⦄ := by
+  mvcgen [Gen.iso7064_mod_37_2.checksum, -Py.index_spec, Py.index_pc, -Py.pymod_spec, Py.pymod_pc]
+  case inv1 => exact post⟨fun xs => ⌜∀ x ∈ xs.1.prefix, strIn x a = true⌝, fun _ => ⌜True⌝⟩
+  case vc1 h1 _ h2 _ _ =>
+    simp only [List.mem_append, List.mem_singleton] at *
+    rintro x (hx | rfl)
+    · exact h1 x hx
+    · exact h2.1
+  case vc4 => simp
+  case vc5 h =>
+    intro c hc
+    have := h [c] (by simp only []; exact mem_chars.mpr ⟨c, hc, rfl⟩)
+    simpa using this
+  all_goals trivial
+
+private theorem mod_37_36_checksum_alpha (n a : Str) :
+    ⦃⌜True⌝⦄ Gen.iso7064_mod_37_36.checksum n a ⦃post⟨fun _ => ⌜∀ c ∈ n, a.contains c = true⌝, fun _ => ⌜True⌝⟩⦄ := by
+  mvcgen [Gen.iso7064_mod_37_36.checksum, -Py.index_spec, Py.index_pc, -Py.pymod_spec, Py.pymod_pc]
+  case inv1 => exact post⟨fun xs => ⌜∀ x ∈ xs.1.prefix, strIn x a = true⌝, fun _ => ⌜True⌝⟩
+  all_goals first
+    | trivial
+    | (simp; done)
+    | (rename_i h; intro c hc
+       have := h [c] (by simp only []; exact mem_chars.mpr ⟨c, hc, rfl⟩)
+       simpa using this)
+    | (simp only [List.mem_append, List.mem_singleton] at *
+       rintro x (hx | rfl)
+       · exact (‹∀ x, x ∈ _ → strIn x a = true›) x hx
+       · exact (‹strIn _ a = true ∧ _›).1)
+
+/-- what `mod_37_2.validate` accepts consists of characters of the alphabet (every character was looked up) -/
 theorem mod_37_2_validate_spec (number alphabet : Str) :
     ⦃⌜True⌝⦄ Gen.iso7064_mod_37_2.validate number alphabet
-    ⦃post⟨fun r => ⌜r = number⌝, fun e => ⌜e.isValidation = true⌝⟩⦄ := by
-  mvcgen [Gen.iso7064_mod_37_2.validate, mod_37_2_checksum_any, Py.stateT_pure_apply]
+    ⦃post⟨fun r => ⌜r = number ∧ number.all (fun c => alphabet.contains c) = true⌝, fun e => ⌜e.isValidation = true⌝⟩⦄ := by
+  mvcgen [Gen.iso7064_mod_37_2.validate, mod_37_2_checksum_alpha, Py.stateT_pure_apply]
+  all_goals (clear_jps; simp_all [List.all_eq_true])
 
 theorem mod_37_36_validate_spec (number alphabet : Str) :
     ⦃⌜True⌝⦄ Gen.iso7064_mod_37_36.validate number alphabet
-    ⦃post⟨fun r => ⌜r = number⌝, fun e => ⌜e.isValidation = true⌝⟩⦄ := by
-  mvcgen [Gen.iso7064_mod_37_36.validate, mod_37_36_checksum_any, Py.stateT_pure_apply]
+    ⦃post⟨fun r => ⌜r = number ∧ number.all (fun c => alphabet.contains c) = true⌝, fun e => ⌜e.isValidation = true⌝⟩⦄ := by
+  mvcgen [Gen.iso7064_mod_37_36.validate, mod_37_36_checksum_alpha, Py.stateT_pure_apply]
+  all_goals (clear_jps; simp_all [List.all_eq_true])
 
+private theorem mod_97_10_checksum_ascii (n : Str) :
+    ⦃⌜True⌝⦄ Gen.iso7064_mod_97_10.checksum n ⦃post⟨fun _ => ⌜AllIn isAscii n⌝, fun _ => ⌜True⌝⟩⦄ := by
+  mvcgen [Gen.iso7064_mod_97_10.checksum, Gen.iso7064_mod_97_10._to_base10, -Py.asciiOnly_spec, Py.asciiOnly_pc,
+    -Py.mapM_spec, Py.mapM_pc, -Py.intOf_spec, Py.intOf_pc, -Py.intOfBase_spec, Py.intOfBase_pc]
+  all_goals (rename_i h _ _ _ _; exact h.2)
+
+/-- `mod_97_10.validate` never raises anything but validation errors; what it accepts is ASCII
+(`.encode('ascii')` inside `_to_base10`) -/
 theorem mod_97_10_validate_spec (number : Str) :
     ⦃⌜True⌝⦄ Gen.iso7064_mod_97_10.validate number
-    ⦃post⟨fun r => ⌜r = number⌝, fun e => ⌜e.isValidation = true⌝⟩⦄ := by
-  mvcgen [Gen.iso7064_mod_97_10.validate, mod_97_10_checksum_any, Py.stateT_pure_apply]
+    ⦃post⟨fun r => ⌜r = number ∧ AllIn isAscii number⌝, fun e => ⌜e.isValidation = true⌝⟩⦄ := by
+  mvcgen [Gen.iso7064_mod_97_10.validate, mod_97_10_checksum_ascii, Py.stateT_pure_apply]
+  all_goals (clear_jps; simp_all)
 
 
 /-! ## `luhn.checksum`, `luhn.calc_check_digit` -/
